@@ -11,7 +11,6 @@ M = [
  ("X05","C01","keeper/invocation.go","\t\tprice, _, err := k.GetExchangedPrice(ctx, consumer, binding)\n\t\tif err != nil {\n\t\t\tprice = k.GetPrice(ctx, consumer, binding)\n\t\t}","\t\tprice := k.GetPrice(ctx, consumer, binding)","(D13 again) the request records the base-denom part of the raw price"),
  ("X06","C15","types/token.go","\t// dest amount = src amount * 10^(dest scale)\n\tamount := coin.Amount.Mul(precisionDec)","\t// dest amount = src amount * 10^(dest scale)\n\tamount := coin.Amount.Quo(precisionDec)","main unit -> min unit conversion divides by the precision"),
  ("X07","C07","keeper/oracle_price.go","\trawPrice := pricing.Price.AmountOf(rawDenom)\n\tprice := sdk.NewDecFromInt(rawPrice).Mul(discountByTime).Mul(discountByVolume)","\trawPrice := pricing.Price.AmountOf(rawDenom)\n\tprice := sdk.NewDecFromInt(rawPrice).Mul(discountByTime).Mul(discountByVolume)\n\tif baseDenom != rawDenom {\n\t\tprice = sdk.NewDecFromInt(rawPrice)\n\t}","promotions are not applied to prices published in a foreign token"),
- ("X08","C02","keeper/oracle_price.go","\t\tif code, msg := CheckResult(result); code != \"200\" {\n\t\t\treturn nil, rawDenom, sdkerrors.Wrapf(types.ErrInvalidModuleService, msg)\n\t\t}","\t\tif code, msg := CheckResult(result); code != \"200\" && code != \"500\" {\n\t\t\treturn nil, rawDenom, sdkerrors.Wrapf(types.ErrInvalidModuleService, msg)\n\t\t}","a refused feed request is treated as answered (the empty output then fails later, or not)"),
 ]
 sel = set(sys.argv[1:])
 for (mid, prop, f, old, new, what) in M:
